@@ -37,12 +37,12 @@ RULE = ("Hypothesis-generated ranking objects of all three kinds (custom rank ma
 ASSUMPTIONS = ["behavioural equality = signature, ranks after completion, impacts, acceptance verdicts",
                "write failures are injected through the file object handed to pickle (pathlib.Path.open wrapped from outside)",
                "CPython, Hypothesis"]
-TECHNIQUE = "round-trip property testing (same and fresh process), model comparison with a twin object, enumeration of save failure points"
+TECHNIQUE = "round-trip property testing (same and fresh process), reference ranks from the object's own impacts or a twin object (System Z), enumeration of save failure points"
 HERE = os.path.dirname(os.path.dirname(os.path.dirname(os.path.abspath(__file__))))
 
 
 def budget(tier):
-    return {"examples": 700 if tier == "quick" else 6000,
+    return {"examples": 560 if tier == "quick" else 5000,
             "soft_seconds": 300 if tier == "quick" else 3000}
 
 
@@ -86,7 +86,8 @@ def _case(draw, tier):
     return {"kind": kind, "atoms": atoms, "ranks": ranks, "base": base, "pre": pre, "meta": meta,
             "queries": [[fm.to_json(B), fm.to_json(A)] for B, A in qs],
             "fresh": draw(st.integers(0, 3)) == 0, "extended": draw(st.booleans()) if kind == "z" else False,
-            "prefix": draw(st.integers(1, 50)), "order": draw(st.sampled_from(["asc", "desc"]))}
+            "prefix": draw(st.integers(1, 50)), "order": draw(st.sampled_from(["asc", "desc"])),
+            "warm": draw(st.booleans())}
 
 
 def strategy(tier):
@@ -177,8 +178,13 @@ def run_case(case, ctx):
 
     try:
         ocf = build()
-        twin = build()
-        full = dict(twin.compute_all_ranks())
+        if kind == "c":
+            # a base can have several Pareto-minimal impact vectors and two constructions may
+            # return different ones: the reference is computed from THIS object's impacts
+            imp0 = ocf.save_impacts()
+            full = {world_str(w, n): ref.kappa_pat(tuple(imp0), ref.fal_pattern(sem, w)) for w in range(1 << n)}
+        else:
+            full = dict(build().compute_all_ranks())     # custom / System Z: unique
     except BaseException:  # noqa: BLE001
         ctx.stratum("skipped:construction-failed")  # C16 / C17 / C18 own construction
         return []
@@ -196,7 +202,31 @@ def run_case(case, ctx):
             ocf.rank_world(world_str(w % (1 << n), n))
     partial = kind != "custom" and 0 < len(set(case["pre"])) < (1 << n)
     qconds = [(fm.from_json(B), fm.from_json(A)) for B, A in case["queries"]]
-    verdicts = [bool(twin.conditional_acceptance(bridge.mk_cond(B, A))) for B, A in qconds]
+
+    def ref_verdict(B, A):
+        vr = fr = None
+        for w in range(1 << n):
+            ws = world_str(w, n)
+            if ws not in full:
+                continue
+            asg = {a: bool((w >> i) & 1) for i, a in enumerate(atoms)}
+            if fm.ev(A, asg):
+                if fm.ev(B, asg):
+                    vr = full[ws] if vr is None else min(vr, full[ws])
+                else:
+                    fr = full[ws] if fr is None else min(fr, full[ws])
+        return vr is not None and (fr is None or vr < fr)
+
+    verdicts = [ref_verdict(B, A) for B, A in qconds]
+    if case.get("warm"):
+        # the object has been used before it is saved: formula ranks / acceptance asked of it
+        ctx.stratum("warm-before-save")
+        for B, A in qconds[:2]:
+            try:
+                ocf.conditional_acceptance(bridge.mk_cond(B, A))
+                ocf.formula_rank(bridge.to_pysmt(A))
+            except BaseException:  # noqa: BLE001 - partial custom maps may lack worlds; not this check's business
+                pass
     if (partial and len(set(full.values())) >= 2):
         ctx.nt(gen.case_hash(case))
         ctx.stratum("partial-state")
@@ -247,7 +277,7 @@ def run_case(case, ctx):
             json.dump(case["queries"], open(qp, "w"))
             env = dict(os.environ)
             env["PYTHONPATH"] = HERE + os.pathsep + os.path.join(HERE, ".deps") + os.pathsep + env.get("PYTHONPATH", "")
-            cp = subprocess.run([sys.executable, "-m", "vlib.props.c20_child", p, qp, case["order"]], cwd=HERE, env=env,
+            cp = subprocess.run([sys.executable, "-m", "vlib.props.c20_child", "consume", p, qp, case["order"]], cwd=HERE, env=env,
                                 capture_output=True, text=True)
             ctx.ev(1)
             line = [l for l in cp.stdout.splitlines() if l.startswith("RESULT ")]
@@ -268,6 +298,51 @@ def run_case(case, ctx):
                         out.append(obs("fresh-process|verdicts-differ", dict(info, got=r["verdicts"], expected=verdicts)))
                     if (r["impacts"] or []) != before["impacts"]:
                         out.append(obs("fresh-process|impacts-differ", dict(info, got=r["impacts"], expected=before["impacts"])))
+        # ---- producer and consumer are BOTH fresh interpreters ------------------------------------
+        if case.get("fresh") and kind != "custom" and case.get("pre") is not None and gen.case_hash(case)[0] in "01234567":
+            ctx.stratum("two-fresh-interpreters")
+            ctx.ev(1)
+            cp_ = os.path.join(tmp, "case.json")
+            json.dump(case, open(cp_, "w"))
+            p2 = os.path.join(tmp, "b.pkl")
+            env = dict(os.environ)
+            env["PYTHONPATH"] = HERE + os.pathsep + os.path.join(HERE, ".deps") + os.pathsep + env.get("PYTHONPATH", "")
+            pr = subprocess.run([sys.executable, "-m", "vlib.props.c20_child", "produce", cp_, p2], cwd=HERE, env=env,
+                                capture_output=True, text=True)
+            pl = [l for l in pr.stdout.splitlines() if l.startswith("RESULT ")]
+            if pr.returncode == 0 and pl:
+                prod = json.loads(pl[0][7:])
+                full2 = prod["full"]
+
+                def verdict2(B, A):
+                    vr = fr = None
+                    for w in range(1 << n):
+                        ws = world_str(w, n)
+                        asg = {a: bool((w >> i) & 1) for i, a in enumerate(atoms)}
+                        if ws in full2 and fm.ev(A, asg):
+                            if fm.ev(B, asg):
+                                vr = full2[ws] if vr is None else min(vr, full2[ws])
+                            else:
+                                fr = full2[ws] if fr is None else min(fr, full2[ws])
+                    return vr is not None and (fr is None or vr < fr)
+
+                expv = [verdict2(B, A) for B, A in qconds]
+                qp2 = os.path.join(tmp, "q2.json")
+                json.dump(case["queries"], open(qp2, "w"))
+                co = subprocess.run([sys.executable, "-m", "vlib.props.c20_child", "consume", p2, qp2, "desc"], cwd=HERE,
+                                    env=env, capture_output=True, text=True)
+                cl = [l for l in co.stdout.splitlines() if l.startswith("RESULT ")]
+                if co.returncode != 0 or not cl:
+                    out.append(obs("two-processes|load-failed", dict(info, stderr=co.stderr[-300:])))
+                else:
+                    r2 = json.loads(cl[0][7:])
+                    if r2["error"]:
+                        out.append(obs("two-processes|error-while-using-loaded-object", dict(info, message=r2["error"])))
+                    elif r2["ranks"] != full2:
+                        out.append(obs("two-processes|completed-ranks-differ", dict(info, got=r2["ranks"], expected=full2)))
+                    elif r2["verdicts"] != expv:
+                        out.append(obs("two-processes|verdicts-differ", dict(info, got=r2["verdicts"], expected=expv,
+                                                                           queries=[fm.cond_text(B, A) for B, A in qconds])))
         # ---- impacts round trips ----------------------------------------------------------------
         if kind == "c":
             bb = bridge.mk_bb(atoms, base)
@@ -412,4 +487,4 @@ def shrink(case):
 
 
 def required_strata(tier):
-    return ["ten-or-more-conditionals", "kind:custom", "custom:partial-rank-map", "kind:z", "kind:c", "partial-state", "fresh-interpreter", "failed-save"]
+    return ["two-fresh-interpreters", "ten-or-more-conditionals", "kind:custom", "custom:partial-rank-map", "kind:z", "kind:c", "partial-state", "fresh-interpreter", "failed-save"]
